@@ -32,10 +32,29 @@ type c07Rule struct {
 	f    *rules.NetworkRule
 	mods []string // modifier names present (for the add-modifier law)
 	exc  bool
+	pat  string // the pattern ("" = c07DefaultPattern)
 }
 
-func c07Text(exc bool, mods []string) string {
-	t := "||e.org^"
+const c07DefaultPattern = "||e.org^"
+
+// c07Patterns: the pattern varies INDEPENDENTLY of the modifiers.  The order must not read the pattern at all, so the
+// pool holds chains of nested prefixes (`||e.org` < `||e.org/` < `||e.org/ads/` < `||e.org/ads/banner`, `||e.org` <
+// `||e.org^`), patterns unrelated to them as strings (`/ads/` -- a regexp rule --, `ads`, `e.org`), patterns of equal
+// length, and (through the product pool) equal patterns.  The first seven are dealt over the product pool.
+var c07Patterns = []string{
+	"||e.org^", "||e.org/ads/", "||e.org/", "/ads/", "||e.org", "ads", "||e.org/ads/banner",
+	"e.org", "|http://e.org/ads", "||e.org/ads/*", "/ads/banner", "||f.org^", "||e.org/adz/", "/e\\.org/", "||e.org/ads",
+}
+
+const c07PoolPatterns = 7
+
+func c07Text(exc bool, mods []string) string { return c07TextP(c07DefaultPattern, exc, mods) }
+
+func c07TextP(pat string, exc bool, mods []string) string {
+	t := pat
+	if t == "" {
+		t = c07DefaultPattern
+	}
 	if exc {
 		t = "@@" + t
 	}
@@ -46,14 +65,46 @@ func c07Text(exc bool, mods []string) string {
 	return t
 }
 
-func c07Mk(exc bool, mods []string) c07Rule {
-	f, err := rules.NewNetworkRule(c07Text(exc, mods), 1)
+func c07Mk(exc bool, mods []string) c07Rule { return c07MkP(c07DefaultPattern, exc, mods) }
+
+// c07MkP builds the rule over pattern pat; if the text is rejected with this pattern, over the default one.
+func c07MkP(pat string, exc bool, mods []string) c07Rule {
+	f, err := rules.NewNetworkRule(c07TextP(pat, exc, mods), 1)
+	if err != nil && pat != c07DefaultPattern {
+		pat = c07DefaultPattern
+		f, err = rules.NewNetworkRule(c07TextP(pat, exc, mods), 1)
+	}
 	if err != nil {
-		panic(c07Text(exc, mods) + ": " + err.Error())
+		panic(c07TextP(pat, exc, mods) + ": " + err.Error())
 	}
 
-	return c07Rule{f: f, mods: append([]string(nil), mods...), exc: exc}
+	return c07Rule{f: f, mods: append([]string(nil), mods...), exc: exc, pat: pat}
 }
+
+// c07Repat returns rule a over another pattern (same class, same modifiers).
+// (memoised per rule object and pattern: the law loops call it millions of times in the thorough tier)
+func c07Repat(a c07Rule, pat string) c07Rule {
+	if pat == a.pat {
+		return a
+	}
+	k := c07RepKey{a.f, pat}
+	if b, ok := c07RepCache[k]; ok {
+		return b
+	}
+	b := c07MkP(pat, a.exc, a.mods)
+	if len(c07RepCache) < 400000 {
+		c07RepCache[k] = b
+	}
+
+	return b
+}
+
+type c07RepKey struct {
+	f   *rules.NetworkRule
+	pat string
+}
+
+var c07RepCache = map[c07RepKey]c07Rule{}
 
 var c07PoolCache []c07Rule
 
@@ -78,7 +129,9 @@ func c07Pool() []c07Rule {
 												mods = append(mods, strings.Split(m, ",")...)
 											}
 										}
-										pool = append(pool, c07Mk(exc, mods))
+										// the pattern walks through the first c07PoolPatterns patterns (7 is coprime to every factor of
+										// the product, so each modifier combination meets each pattern of a neighbour combination)
+										pool = append(pool, c07MkP(c07Patterns[len(pool)%c07PoolPatterns], exc, mods))
 									}
 								}
 							}
@@ -111,11 +164,15 @@ func c07Extras() (out []c07Rule) {
 		{false, "first-party"}, {false, "~match-case"}, {false, "third-party,match-case,important,popup"},
 		{false, "all"}, {false, "subdocument,~third-party"}, {true, "document,important,domain=e.org,ctag=a,client=a,denyallow=a.com,dnstype=A"},
 	} {
-		f, err := rules.NewNetworkRule(c07Text(t.exc, strings.Split(t.mods, ",")), 1)
+		pat := c07Patterns[len(out)%len(c07Patterns)]
+		f, err := rules.NewNetworkRule(c07TextP(pat, t.exc, strings.Split(t.mods, ",")), 1)
 		if err != nil {
-			continue
+			pat = c07DefaultPattern
+			if f, err = rules.NewNetworkRule(c07TextP(pat, t.exc, strings.Split(t.mods, ",")), 1); err != nil {
+				continue
+			}
 		}
-		out = append(out, c07Rule{f: f, mods: strings.Split(t.mods, ","), exc: t.exc})
+		out = append(out, c07Rule{f: f, mods: strings.Split(t.mods, ","), exc: t.exc, pat: pat})
 	}
 
 	return out
@@ -232,7 +289,12 @@ func genC07Prio(r *rng, n int, w *bufio.Writer) {
 
 				continue
 			}
-			b := c07Mk(a.exc, append(append([]string{}, a.mods...), pick(r, adds)))
+			// (over the same pattern or over another one: the pattern must not matter)
+			bp := a.pat
+			if r.chance(1, 3) {
+				bp = pick(r, c07Patterns)
+			}
+			b := c07MkP(bp, a.exc, append(append([]string{}, a.mods...), pick(r, adds)))
 			if r.chance(1, 2) {
 				emit(b.f, a.f)
 			} else {
@@ -246,6 +308,16 @@ func genC07Prio(r *rng, n int, w *bufio.Writer) {
 			} else {
 				emit(a.f, f)
 			}
+		case 4, 5:
+			// the same class and modifiers (or modifiers of the same number) over two patterns, in both directions:
+			// nested prefixes, unrelated patterns, equal patterns
+			b := a
+			if r.chance(1, 2) {
+				b = pick(r, all)
+			}
+			a2, b2 := c07Repat(a, pick(r, c07Patterns)), c07Repat(b, pick(r, c07Patterns))
+			emit(a2.f, b2.f)
+			emit(b2.f, a2.f)
 		default:
 			b := pick(r, all)
 			emit(a.f, b.f)
@@ -341,6 +413,31 @@ func genC07Laws(r *rng, n int, w *bufio.Writer) {
 	}
 	fmt.Fprintf(w, "assert c07.asymm %d = %s ## no a>b && b>a over %d ordered pairs %s\n", checked, wbool(bad == ""), checked, bad)
 
+	// the pattern is not read: a rule is tied with itself over any other pattern, for every ordered pair of patterns
+	// (nested prefixes, unrelated, equal length); sampled rules, all rules in the exhaustive tier
+	bad = ""
+	checked = 0
+	np := n / 10
+	if exhaustive || np > len(all) {
+		np = len(all)
+	}
+	for i := 0; i < np && bad == ""; i++ {
+		a := all[i]
+		if !exhaustive {
+			a = pick(r, all)
+		}
+		for _, p1 := range c07Patterns {
+			for _, p2 := range c07Patterns {
+				x, y := c07Repat(a, p1), c07Repat(a, p2)
+				checked++
+				if x.f.IsHigherPriority(y.f) {
+					bad = x.f.RuleText + "  >  " + y.f.RuleText
+				}
+			}
+		}
+	}
+	fmt.Fprintf(w, "assert c07.patblind %d = %s ## a rule over pattern p never outranks the same rule over pattern q, %d ordered pairs %s\n", checked, wbool(bad == ""), checked, bad)
+
 	// transitivity of > and of ties: sampled triples, biased to related rules
 	bad = ""
 	checked = 0
@@ -352,6 +449,22 @@ func genC07Laws(r *rng, n int, w *bufio.Writer) {
 	tie := func(a, b c07Rule) bool { return !gt(a, b) && !gt(b, a) }
 	for i := 0; i < nt && bad == ""; i++ {
 		a, b, c := pick(r, all), pick(r, all), pick(r, all)
+		switch i % 4 {
+		case 1:
+			// one rule over three patterns: the three must be mutually tied whatever the patterns are
+			b, c = c07Repat(a, pick(r, c07Patterns)), c07Repat(a, pick(r, c07Patterns))
+		case 2:
+			// rules differing in one added modifier, each over its own pattern (parses a rule: every 8th triple of this kind only)
+			if adds := c07Addable(a); len(adds) > 0 && i%32 == 2 {
+				b = c07MkP(pick(r, c07Patterns), a.exc, append(append([]string{}, a.mods...), pick(r, adds)))
+			}
+			c = c07Repat(c, pick(r, c07Patterns))
+		case 3:
+			a, b, c = c07Repat(a, pick(r, c07Patterns)), c07Repat(b, pick(r, c07Patterns)), c07Repat(c, pick(r, c07Patterns))
+		}
+		if i%8 >= 4 {
+			a, b, c = b, c, a
+		}
 		checked++
 		if gt(a, b) && gt(b, c) && !gt(a, c) {
 			bad = "a>b>c but not a>c: " + a.f.RuleText + " , " + b.f.RuleText + " , " + c.f.RuleText
@@ -378,7 +491,12 @@ func genC07Laws(r *rng, n int, w *bufio.Writer) {
 		cases = cases[:n]
 	}
 	for i, c := range cases {
-		b := c07Mk(c.a.exc, append(append([]string{}, c.a.mods...), c.mod))
+		// the richer rule over the same pattern, and (every 3rd case) over another pattern
+		bp := c.a.pat
+		if i%3 == 2 {
+			bp = c07Patterns[(i/3)%len(c07Patterns)]
+		}
+		b := c07MkP(bp, c.a.exc, append(append([]string{}, c.a.mods...), c.mod))
 		ok := b.f.IsHigherPriority(c.a.f) && !c.a.f.IsHigherPriority(b.f)
 		if exhaustive && ok && i%50 != 0 {
 			// keep the thorough stream short: print every 50th passing case, every failing one
@@ -397,6 +515,19 @@ func genC07Laws(r *rng, n int, w *bufio.Writer) {
 		cand := make([]c07Rule, k)
 		for j := range cand {
 			cand[j] = pick(r, all)
+		}
+		switch i % 3 {
+		case 1:
+			// candidates of one class and modifier set over different patterns, plus strangers
+			for j := range cand {
+				if j == 0 || r.chance(2, 3) {
+					cand[j] = c07Repat(cand[0], pick(r, c07Patterns))
+				}
+			}
+		case 2:
+			for j := range cand {
+				cand[j] = c07Repat(cand[j], pick(r, c07Patterns))
+			}
 		}
 		sel := func(cs []c07Rule) c07Rule {
 			best := cs[0]
@@ -426,9 +557,50 @@ func genC07Laws(r *rng, n int, w *bufio.Writer) {
 				ok = false
 			}
 		}
+		// in a strict weak order every winner outranks every candidate outside the top class: a candidate that loses to
+		// the winner of one ordering loses to the winner of every ordering
+		why := ""
+		for p := 0; p < 4 && ok; p++ {
+			shuffle(r, cand)
+			w1 := sel(cand)
+			for _, c := range cand {
+				if gt(w0, c) != gt(w1, c) {
+					ok = false
+					why = " (winner " + w1.f.RuleText + " of another ordering ranks " + c.f.RuleText + " differently)"
+				}
+			}
+		}
+		// the REAL selection loop (GetDNSBasicRule) over the candidates it does not filter out, in several orderings
+		var live []*rules.NetworkRule
+		for _, c := range cand {
+			if !c.f.IsOptionEnabled(rules.OptionBadfilter) && c.f.DNSRewrite == nil && !c.f.IsOptionEnabled(rules.OptionStealth) {
+				live = append(live, c.f)
+			}
+		}
+		for p := 0; p < 3 && ok && len(live) > 0; p++ {
+			got := rules.GetDNSBasicRule(append([]*rules.NetworkRule(nil), live...))
+			if got == nil {
+				ok, why = false, " (GetDNSBasicRule returned nil)"
+
+				break
+			}
+			for _, c := range live {
+				if c.IsHigherPriority(got) {
+					ok = false
+					why = " (GetDNSBasicRule selected " + got.RuleText + ", outranked by " + c.RuleText + ")"
+				}
+			}
+			if got.IsHigherPriority(w0.f) || w0.f.IsHigherPriority(got) {
+				if c06IndexOf(live, w0.f) >= 0 {
+					ok = false
+					why = " (GetDNSBasicRule selected " + got.RuleText + ", not tied with the winner)"
+				}
+			}
+			shuffle(r, live)
+		}
 		if exhaustive && ok && i%100 != 0 {
 			continue
 		}
-		fmt.Fprintf(w, "assert c07.select %s = %s ## winner %s of %s\n", wstrs(ts), wbool(ok), w0.f.RuleText, strings.Join(ts, " , "))
+		fmt.Fprintf(w, "assert c07.select %s = %s ## winner %s of %s%s\n", wstrs(ts), wbool(ok), w0.f.RuleText, strings.Join(ts, " , "), why)
 	}
 }
